@@ -2,6 +2,8 @@ SPECIFICATION Spec
 CONSTANTS N = 3
  NNames = 2
  FullY = FALSE
+ Pep709 = FALSE
+ Skeleton = FALSE
  AllOptions = FALSE
 INVARIANT NoCapture
 INVARIANT StaysCompilable
